@@ -43,6 +43,11 @@ pub fn canon(case: &Value) -> Value {
                 Json::to_writer(&mut buf, &v).map(|_| buf)
             })),
             "JsonPretty::canonicalize": render(guarded(|| JsonPretty::canonicalize(&v))),
+            // a sink that takes only a few bytes per call (a pipe, a socket): the whole encoding or an error
+            "Json::to_writer(sink taking 3 bytes per call)": render(guarded(|| {
+                let mut sink = crate::util::ShortWriter { buf: Vec::new(), step: 3 };
+                Json::to_writer(&mut sink, &v).map(|_| sink.buf)
+            })),
             "Json::canonicalize(Json::serialize)": render(guarded(|| {
                 Json::canonicalize(&Json::serialize(&v)?)
             })),
